@@ -58,6 +58,24 @@ def gen_case(rnd, tier: str, i: Any) -> Dict[str, Any]:
             if e.get("cat") in ("gpu_memcpy", "gpu_memset"):
                 if rnd.random() < 0.5:
                     e["args"]["memory bandwidth (GB/s)"] = rnd.choice([0.1, 3.3, 7.77, 0.003, 123.456])
+        if rnd.random() < 0.3:
+            # copies whose record carries the size but no bandwidth, or a bandwidth of exactly 0: the series is the sum of the
+            # *recorded* bandwidths
+            for e in tr["traceEvents"]:
+                if e.get("cat") in ("gpu_memcpy", "gpu_memset") and rnd.random() < 0.4:
+                    e["args"]["bytes"] = rnd.choice([1, 4096, 1 << 20])
+                    if rnd.random() < 0.5:
+                        e["args"].pop("memory bandwidth (GB/s)", None)
+                    else:
+                        e["args"]["memory bandwidth (GB/s)"] = 0.0
+        if rnd.random() < 0.25:
+            # the launch vocabulary of a ROCm / MTIA trace (Kineto files them under cuda_runtime as well)
+            ren = {"cudaLaunchKernel": ["hipLaunchKernel", "hipExtModuleLaunchKernel", "runFunction - job_prep_and_submit_for_execution"],
+                   "cudaLaunchKernelExC": ["hipExtModuleLaunchKernel"], "cuLaunchKernel": ["hipLaunchKernel"],
+                   "cudaMemcpyAsync": ["hipMemcpyAsync", "hipMemcpyWithStream", "hipMemcpyWithStream"], "cudaMemsetAsync": ["hipMemsetAsync"]}
+            for k, e in enumerate(tr["traceEvents"]):
+                if k > 0 and e.get("ph") == "X" and e.get("name") in ren:
+                    e["name"] = rnd.choice(ren[e["name"]])
         gen_sim.drop_events(rnd, tr, p_launch=rnd.choice([0, 0, 0.1]), p_kernel=rnd.choice([0, 0, 0.1]))
         if rnd.random() < 0.3:
             # copies / memsets recorded without a correlation id (their launch was not traced at all): they still move bytes
